@@ -124,7 +124,7 @@ Print Assumptions C05_residual_is_equations_array.
 (* 4a. every_date_partial: for ANY model (nonlinear, growth): when the solver reports success (max-norm of the
    residual vector below tol) every equation of the block is within tol on the stored path at the evaluated dates
    t and t+1.  Other dates are NOT covered in general (see C05_two_dates_do_not_suffice). *)
-Theorem C05_every_date_partial : forall flat lg kinds (v : variant RA) wrt level_qids change_qids eqs g tol,
+Theorem C05_every_date_partial : forall flat lg kinds (v : variant RA) wrt level_qids change_qids eqs g,
   let ev := the_ev flat lg v wrt level_qids change_qids eqs in
   let P := stored_path flat lg kinds v wrt level_qids change_qids eqs g in
   length (v_changes RA v) = length (v_levels RA v) -> NoDup wrt ->
@@ -132,7 +132,7 @@ Theorem C05_every_date_partial : forall flat lg kinds (v : variant RA) wrt level
   length g = (count_true (ev_bl RA ev) + count_true (ev_bc RA ev))%nat ->
   (forall q, In q wrt -> In q change_qids -> is_loggable (kind_of kinds q) = true) ->
   (forall e q s, In e eqs -> In (q, s) (tokens RA e) -> (q < length (v_levels RA v))%nat) ->
-  Forall (fun r => (Rabs r < tol)%R) (ev_func RA ev g) ->
+  forall tol, Forall (fun r => (Rabs r < tol)%R) (ev_func RA ev g) ->
   forall e, In e eqs ->
     (Rabs (eval RA (at_date P 0) e) < tol)%R /\ (flat = false -> (Rabs (eval RA (at_date P 1) e) < tol)%R).
 Proof. exact success_means_equations_hold. Qed.
